@@ -6,5 +6,5 @@ import OG.C14.Props
 import OG.C14.IndexProps
 import OG.C14.AlignProps
 import OG.C14.SharedProps
-import OG.C14.Tier
+import OG.C14.TierProps
 import OG.C14.SchemaProps
